@@ -1,8 +1,8 @@
 SPECIFICATION SSpec
 CONSTANTS
   Validators = {1, 2, 3}
-  SlotSpace = {4, 5}
-  Nows = {3, 4, 5}
+  SlotSpace = {8, 9}
+  Nows = {7, 8, 9}
   Committees = {0, 1}
   Sizes = {8, 40}
   Targets = {2, 16}
@@ -10,7 +10,12 @@ CONSTANTS
   HMod = 840
   MaxDuties = 4
   MaxSubs = 2
-  ScenLen = 8
+  SPE = 4
+  Ep = 2
+  MaxRefresh = 2
+  MaxChanges = 1
+  ScenLen = 11
+  SetupFan = 8
   SetupLen = 4
-INVARIANTS Emit TypeOK AllFutureSubscribed AggregatorRuleExact EveryAggregatorCommitteeScheduled
+INVARIANTS Emit TypeOK AllFutureSubscribed AggregatorRuleExact InfoInForceComplete EveryAggregatorCommitteeScheduled
 CHECK_DEADLOCK FALSE
